@@ -472,7 +472,7 @@ func TestC01(t *testing.T) {
 		"one-at-a-time exhaustive sweeps of every header byte (256 values), every payload length 0..255 x 5 content classes, " +
 		"boundary and random message ids and 48-bit timestamps, random signatures, then fully random frames and multi-frame streams " +
 		"through one reader; distinct = distinct wire images (SHA-1)")
-	rep.RuleAdd("Also: already encoded frames whose id is in the writer"s dialect (emitted as given); signed untruncated frames read back by a keyed reader with the dialect.")
+	rep.RuleAdd("Also: already encoded frames whose id is in the writer's dialect (emitted as given); signed untruncated frames read back by a keyed reader with the dialect.")
 	rep.Assume("reference serializer harness/ref written from the MAVLink serialization guide (anchored by upstream golden byte vectors)")
 	rep.Assume("frames violating their own invariants (signature without signed flag, payload > 255) are outside the statement")
 
